@@ -44,7 +44,7 @@ Act(ev) ==
 RetErrs(ev) ==
    LET c == ev.c a == ev.a IN
    CASE ev.name \in {"Insert", "Emplace"} -> IF ev.ret # a THEN {"returned_position"} ELSE {}
-     [] ev.name = "Eq" -> IF ev.ret # B2I(el[c] = el[a]) THEN {"equality"} ELSE {}
+     [] ev.name = "Eq" -> IF ev.ret # B2I(SeqEq(el[c], el[a])) THEN {"equality"} ELSE {}
      [] ev.name = "Less" -> IF ev.ret # B2I(LexLess(el[c], el[a], 1)) THEN {"ordering"} ELSE {}
      [] ev.name = "At" -> IF a >= Len(el[c]) THEN (IF ev.threw # 1 THEN {"at_must_throw"} ELSE {})
                           ELSE (IF ev.threw # 0 \/ ev.ret # el[c][a + 1] THEN {"at_value"} ELSE {})
